@@ -267,7 +267,13 @@ func compileDel(cp *compiler, fn *parse.Form) effectOp {
 type delLocalVarOp struct{ index int }
 
 func (op delLocalVarOp) exec(fm *Frame) Exception {
-	fm.local.slots[op.index] = nil
+	// The compiler has marked the variable as deleted, which is what makes it
+	// inaccessible to code compiled later. The slot is not cleared here:
+	// fm.local may already be visible to other goroutines (Eval installs the
+	// new global namespace, and use installs a module's namespace, before the
+	// code runs), and slots of a namespace are never written after it has been
+	// built. nsOp.prepare leaves deleted variables out when it builds the next
+	// namespace, which releases them.
 	return nil
 }
 
